@@ -18,7 +18,7 @@ import (
 // base64 encoding of the same alphabet; listed in the evidence.)
 //
 //verif:lemma
-//verif:props C17
+//verif:props C17 C03
 func verif_udp_payload_round_trip(buf []byte, laddr, raddr *net.UDPAddr) {
 	verif.ResetEvents()
 	m := NewUDPPacket(buf, laddr, raddr)
